@@ -55,6 +55,15 @@ Theorem C17_clustering_keeps_other_positions o st sz sw c k : clusterMove o st s
 Proof. exact (clusterMove_untouched o st sz sw c k). Qed.
 Print Assumptions C17_clustering_keeps_other_positions.
 
+(* block swap, completely: the child is the parent read in the order [0,i1) [j,j+L) [i1+L,j) [i1,i1+L) [j+L,n), L = bs-1, j = i2+bs-1
+   (the code's min:max slices exchange bs-1 residues of each block, in order) *)
+Theorem C17_block_swap_closed_form o bs i1 i2 c : blockSwap o bs i1 i2 = Some c ->
+  let n := List.length (mseq o) in let L := (bs - 1)%nat in let j := (i2 + bs - 1)%nat in
+  mseq c = rearrange Ala (mseq o)
+             (seq 0 i1 ++ seq j L ++ seq (i1 + L) (j - (i1 + L)) ++ seq i1 L ++ seq (j + L) (n - (j + L))).
+Proof. exact (blockSwap_closed_form o bs i1 i2 c). Qed.
+Print Assumptions C17_block_swap_closed_form.
+
 Example C17_frame_nonvacuous :
   exists c, blockSwap (mfresh [Glu; Lys; Gly; Ser; Asp; Arg; Gly; Ala]) 3 0 2 = Some c /\
             nth 2 (mseq c) Ala = Gly /\ nth 0 (mseq c) Ala <> Glu.
